@@ -5,7 +5,10 @@ import (
 	"fmt"
 	"math/rand"
 	"os"
+	"sort"
 	"sync"
+
+	"verifharness/drv"
 
 	"verifharness/evid"
 	"verifharness/sessrep"
@@ -83,6 +86,50 @@ func tourAll(run *evid.Run, gs []*sessrep.Graph, maxEdges int) sessrep.Stats {
 		evid.Inconclusive("replay: %v", firstErr)
 	}
 	return total
+}
+
+// walkAll records random walks on real servers (one server per
+// configuration, walks in parallel over configurations).
+func walkAll(run *evid.Run, cfgs []sessrep.CfgRec, perCfg, steps int) []sessrep.OneWalk {
+	var mu sync.Mutex
+	var all []sessrep.OneWalk
+	var wg sync.WaitGroup
+	sem := make(chan struct{}, 16)
+	var firstErr error
+	for i, cfg := range cfgs {
+		wg.Add(1)
+		go func(i int, cfg sessrep.CfgRec) {
+			defer wg.Done()
+			sem <- struct{}{}
+			defer func() { <-sem }()
+			srv := drv.Start(sessrep.DrvCfg(cfg))
+			defer srv.Stop()
+			var mine []sessrep.OneWalk
+			for w := 0; w < perCfg; w++ {
+				seed := run.Seed*1000003 + int64(i)*1009 + int64(w)
+				rng := rand.New(rand.NewSource(seed))
+				evs, hist, err := sessrep.Walk(srv, cfg, rng, steps)
+				if err != nil {
+					mu.Lock()
+					if firstErr == nil {
+						firstErr = fmt.Errorf("walk cfg %+v seed %d: %v (transcript %v)", cfg, seed, err, hist)
+					}
+					mu.Unlock()
+					return
+				}
+				mine = append(mine, sessrep.OneWalk{Events: evs, Hist: hist, Cfg: cfg, Seed: seed})
+			}
+			mu.Lock()
+			all = append(all, mine...)
+			mu.Unlock()
+		}(i, cfg)
+	}
+	wg.Wait()
+	if firstErr != nil {
+		evid.Inconclusive("random walk: %v", firstErr)
+	}
+	sort.SliceStable(all, func(i, j int) bool { return all[i].Seed < all[j].Seed })
+	return all
 }
 
 func replayFile(path string) {
